@@ -10,7 +10,7 @@
      (2 what holders post eligible)
          holders = ((size ((id score) ...)) ...): new(size) then add_score each; concat; then
          add_score each of post; what = 0 -> result holder, what = 1 -> result (argmin plate id)
-         eligible = () | ((id ...))
+         eligible = () | ((id ...)); what = 2 -> result (get_score pid), eligible = ((pid))
      (3 l n)      -> np.array_split of the integer list l into n sections
      (4 rows)     rows = ((sample (treat ...)) ...) -> positions kept by first-occurrence unique
    holder = (size ((id score) ...) current_index) *)
@@ -77,6 +77,11 @@ Definition run_c06 (orc : oracle) (x : sexp) : sexp :=
       match as_Z what, as_listof (as_pair as_nat (as_listof as_slot)) hs, as_listof as_slot post, as_option as_Zs el with
       | Some what, Some hs, Some post, Some el =>
           if what =? 0 then of_result of_holder (build_holders hs post)
+          else if what =? 2 then
+            match el with
+            | Some [pid] => of_result SZ (dor h <- build_holders hs post; h_get_score h pid)
+            | _ => bad_input
+            end
           else of_result SZ (dor h <- build_holders hs post; min_plate h el)
       | _, _, _, _ => bad_input
       end
